@@ -44,7 +44,7 @@ def resetFields : List String := [
   "h1_cor_bsum", "f_pol", "s_cor1", "s_cor2", "growth_stage", "tr_ratio", "r_cor",
   "canopy_cover", "canopy_cover_adj", "canopy_cover_ns", "canopy_cover_adj_ns", "biomass",
   "biomass_ns", "harvest_index", "harvest_index_adj", "ccx_act", "ccx_act_ns", "ccx_w",
-  "ccx_w_ns", "ccx_early_sen", "cc_prev", "protected_seed", "sumET0EarlySen", "HIfinal",
+  "ccx_w_ns", "ccx_early_sen", "cc_prev", "protected_seed", "cc0_adj", "sumET0EarlySen", "HIfinal",
   "DryYield", "FreshYield", "th", "surface_storage"]
 
 /-- the two fields whose reset is conditional on `sim_off_season is False` -/
@@ -105,8 +105,8 @@ def rewrittenBeforeRead : List String := [
 array since repo commit 2fac2e8) and only read (reset_initial_conditions.py, `th = copy(thini)`). -/
 def neverWrittenAfterInit : List String := ["thini"]
 
-/-- **the finding**: fields for which a read on the first in-season day can see the previous
-season's value.
+/-- **the finding** (now repaired in /repo, the list is empty): fields for which a read on the first
+in-season day could see the previous season's value.  Historical entry:
 
 * `cc0_adj` — written by canopy_cover.py:182 (`= Crop.CC0`) only in the branch
   `tCCadj < Emergence or round(tCCadj) > Maturity`; when the crop germinates on day 1 with
@@ -116,6 +116,6 @@ season's value.
   season ended with `cc0_adj = canopy_cover < CC0` (:268, :393, e.g. a crop killed by drought).
   A fresh run is itself inconsistent: `cc0_adj` starts at `CC0` when the window starts on the
   planting date and at 0 otherwise (read_model_initial_conditions.py:54/58). -/
-def knownLeaks : List String := ["cc0_adj"]
+def knownLeaks : List String := []   -- `cc0_adj` is reset since the repo fix "reset the adjusted initial canopy cover"
 
 end Aqua.Reset
